@@ -712,6 +712,20 @@ pub fn oracles(w: &RegWorld, built: &Built, loader: &RegLoader, report: &mut Rep
       report.fail("oracle", "package-missing-from-table", format!("{} has modules importing {:?} but is not in the package table", nv, deps), replay());
     }
   }
+  // every registry package a module of which is in the graph has a record, however it was reached
+  // (jsr: specifier or https registry URL) and whether or not it imports anything
+  {
+    let table: BTreeSet<String> = g.packages.packages_with_deps().map(|(nv, _)| nv.to_string()).collect();
+    let mut loaded: BTreeSet<String> = BTreeSet::new();
+    for m in g.modules() {
+      if let Some(nv) = deno_graph::source::recommended_registry_package_url_to_nv(&reg, m.specifier()) {
+        loaded.insert(nv.to_string());
+      }
+    }
+    for nv in loaded.difference(&table) {
+      report.fail("oracle", "package-with-loaded-modules-missing-from-table", format!("{} has modules in the graph but no record in the package table {:?}", nv, table), replay());
+    }
+  }
   selection_oracle(w, built, loader, report);
 }
 
